@@ -377,4 +377,27 @@ theorem C14_batch_independent_full_fails : ¬C14_batch_independent_full := by
   rw [h1, h2, C14_batch_independence_fails_numEvents_with_frames.1, C14_batch_independence_fails_numEvents_with_frames.2] at this
   exact absurd this (by decide)
 
+/-! ### list-mode objective: instance and negative witness -/
+
+/-- frame `[0.3, 2) s` of the stream `exRecs`, cache of `n` events -/
+def exLm (n : Nat) : LmCfg :=
+  { tpl := exTpl, doTimeFrame := true, startT := 300, endT := 2000, numEventsToUse := 0, cacheSize := n }
+
+example : (exLm 1).WF := ⟨rfl, by decide, by decide, by decide, by decide⟩
+example : regularB [] 0 exRecs = true := by decide
+/-- not trivial: two prompt events are accepted (one before the frame, a delayed one, two out of range and three after the
+    frame are not); with a cache of one event they come in separate batches, followed by an empty last batch -/
+example : lmEvents (exLm 1) exRecs = [[⟨1, 1, 0, 0, 1⟩], [⟨0, 2, 0, 0, -1⟩], []] := by decide
+example : lmEvents (exLm 7) exRecs = [[⟨1, 1, 0, 0, 1⟩, ⟨0, 2, 0, 0, -1⟩]] := by decide
+example : promptBins (exLm 7).histCfg exRecs 300 2000 = [⟨1, 1, 0, 0, 1⟩, ⟨0, 2, 0, 0, -1⟩] := by decide
+
+/-- **negative witness** (the hypothesis "time marks never go back" of `C14_lm_objective_events` is needed): with the marks
+    2.5 s, 0.5 s the objective stops reading at the first mark beyond the frame, while the event after the second mark has its
+    time in the frame (and `LmToProjData`, which skips to the frame start first, histograms it) -/
+theorem C14_lm_objective_events_fails_without_monotone :
+    (exLm 2).WF ∧ regularB [] 0 [.time 2500, .time 500, exEv 0 1 0 true] = false ∧
+    (lmEvents (exLm 2) [.time 2500, .time 500, exEv 0 1 0 true]).flatten = [] ∧
+    promptBins (exLm 2).histCfg [.time 2500, .time 500, exEv 0 1 0 true] 300 2000 = [⟨0, 1, 0, 0, 0⟩] := by
+  refine ⟨⟨rfl, by decide, by decide, by decide, by decide⟩, by decide, by decide, by decide⟩
+
 end StirVerif.C14
